@@ -668,6 +668,69 @@ fn p_nfb(r: &mut Rng, n: usize) -> Vec<Case> {
         }
         set = dedup(s);
     }
+    let mut extra_hs: Vec<Word> = vec![];
+    if !utf8 && r.pct(25) {
+        // two wide nodes with DISJOINT label sets at very different depths (a deep one at the end of
+        // a chain z^d, a shallow one below the root): if the layout ever lets two states share a BASE,
+        // the shallow state reaches the deep state's children in one step, and the fail chain back
+        // costs ~d transitions per 3 bytes — the shape on which the 2n bound is observable
+        let d = r.range(3, 41);
+        let z = r.below(256) as Sym;
+        let mut sq = r.below(256) as Sym;
+        if sq == z {
+            sq = (sq + 1) % 256;
+        }
+        let low_deep = r.pct(50);
+        let (deep, shallow): (Vec<Sym>, Vec<Sym>) = if low_deep {
+            ((0x00..=0x7f).collect(), (0x80..=0xff).collect())
+        } else {
+            ((0x80..=0xff).collect(), (0x00..=0x7f).collect())
+        };
+        let mut s: Vec<Word> = vec![];
+        let roots = r.range(100, 200);
+        let mut all: Vec<Sym> = (0..=255).collect();
+        r.shuffle(&mut all);
+        for &b in &all[..roots] {
+            s.push(vec![b]);
+        }
+        s.push(vec![z]);
+        s.push(vec![sq]);
+        let c = r.below(256) as Sym;
+        for j in 1..d {
+            let mut w = vec![z; j];
+            if c != z {
+                w.push(c);
+                s.push(w);
+            }
+        }
+        let drop_deep = r.below(6);
+        for (i, &b) in deep.iter().enumerate() {
+            if i >= drop_deep {
+                let mut w = vec![z; d];
+                w.push(b);
+                s.push(w);
+            }
+        }
+        let qpath: Word = if r.pct(70) { vec![sq] } else { vec![sq, r.below(256) as Sym] };
+        let drop_sh = r.below(6);
+        for (i, &b) in shallow.iter().enumerate() {
+            if i >= drop_sh {
+                s.push([&qpath[..], &[b]].concat());
+            }
+        }
+        set = dedup(s);
+        for _ in 0..4 {
+            let x = r.pick(&deep);
+            let y = r.below(256) as Sym;
+            let mut h: Word = vec![];
+            for _ in 0..16 {
+                h.extend_from_slice(&qpath);
+                h.push(x);
+                h.push(y);
+            }
+            extra_hs.push(h);
+        }
+    }
     if !utf8 && r.pct(70) {
         // one-byte patterns 0x00 / 0x01 make a wrong transition on the bytes vacant slots default
         // to observable
@@ -678,6 +741,7 @@ fn p_nfb(r: &mut Rng, n: usize) -> Vec<Case> {
         }
     }
     let mut hs = haystacks(r, &set, &a, utf8);
+    hs.extend(extra_hs);
     if !utf8 {
         // path(u) ++ [0|1] ++ tail for nodes u of the trie
         for _ in 0..14 {
